@@ -212,6 +212,13 @@ fn check_index_full() {
         }
         let m = g.triples_matching([it(1_000_000)], Any, Any).count() + g.triples_matching(Any, Any, [it(1_000_000)]).count() + g.triples_matching(Any, [it(1_000_000)], Any).count();
         if m != 0 { fail($name, &[], format!("index full: a failed insert left {} matching triples behind", m)); }
+        // a full (or nearly full) index still serves triples made of terms it already knows
+        let r1 = g.insert(it(1), it(0), it(2));
+        let r2 = g.insert(it(1), it(0), it(2));
+        let r3 = g.remove(it(1), it(0), it(2));
+        if !matches!(r1, Ok(true)) || !matches!(r2, Ok(false)) || !matches!(r3, Ok(true)) || g.triples().count() != before {
+            fail($name, &[], format!("index full: insert / re-insert / remove of a new triple over KNOWN terms gave {:?} / {:?} / {:?} (expected Ok(true) / Ok(false) / Ok(true))", r1.map_err(|e| e.to_string()), r2.map_err(|e| e.to_string()), r3.map_err(|e| e.to_string())));
+        }
     }}}
     graph!(SFG, "small::FastGraph");
     graph!(SLG, "small::LightGraph");
@@ -224,6 +231,12 @@ fn check_index_full() {
         let m = d.quads_matching(Any, Any, [it(1_000_000)], Any).count() + d.quads_matching(Any, Any, Any, [Some(it(1_000_001))]).count();
         if r.is_ok() || after != before || m != 0 {
             fail($name, &[], format!("index full: insert returned {:?}, quads {} -> {}, {} leftovers", r.map_err(|e| e.to_string()), before, after, m));
+        }
+        let r1 = d.insert(it(1), it(0), it(2), Some(it(3)));
+        let r2 = d.insert(it(1), it(0), it(2), Some(it(3)));
+        let r3 = d.remove(it(1), it(0), it(2), Some(it(3)));
+        if !matches!(r1, Ok(true)) || !matches!(r2, Ok(false)) || !matches!(r3, Ok(true)) || d.quads().count() != before {
+            fail($name, &[], format!("index full: insert / re-insert / remove of a new quad over KNOWN terms gave {:?} / {:?} / {:?} (expected Ok(true) / Ok(false) / Ok(true))", r1.map_err(|e| e.to_string()), r2.map_err(|e| e.to_string()), r3.map_err(|e| e.to_string())));
         }
     }}}
     dataset!(SFD, "small::FastDataset");
